@@ -146,9 +146,13 @@ func (r *Report) Finish() int {
 		"wall_s":      wall,
 		"violations":  len(r.Violations),
 	}
-	os.MkdirAll(filepath.Join(verifRoot, "evidence"), 0o755)
+	evDir := filepath.Join(verifRoot, "evidence")
+	if repoDir() != "/repo" {
+		evDir = filepath.Join(verifRoot, ".build", "evidence-alt") // trying a seeded change: never touch the real evidence
+	}
+	os.MkdirAll(evDir, 0o755)
 	b, _ := json.MarshalIndent(ev, "", " ")
-	os.WriteFile(filepath.Join(verifRoot, "evidence", r.Prop+".json"), b, 0o644)
+	os.WriteFile(filepath.Join(evDir, r.Prop+".json"), b, 0o644)
 	if len(r.HarnessErr) > 0 {
 		for _, e := range r.HarnessErr {
 			fmt.Println("HARNESS-ERROR " + e)
